@@ -62,7 +62,10 @@ fn main() {
     let source = &rest[0];
     let dest = PathBuf::from(&rest[1]);
     let module = source.trim_start_matches("rsync://").trim_end_matches('/').to_string();
-    if let Ok(ms) = fs::read_to_string(ctrl.join("delay_ms")) {
+    if let Ok(ms) = fs::read_to_string(ctrl.join("delay").join(&module)) {
+        if let Ok(ms) = ms.trim().parse::<u64>() { std::thread::sleep(std::time::Duration::from_millis(ms)); }
+    }
+    else if let Ok(ms) = fs::read_to_string(ctrl.join("delay_ms")) {
         if let Ok(ms) = ms.trim().parse::<u64>() { std::thread::sleep(std::time::Duration::from_millis(ms)); }
     }
     if let Ok(text) = fs::read(ctrl.join("stderr")) { let _ = std::io::stderr().write_all(&text); }
